@@ -40,8 +40,10 @@ inline void evaluate(const Case& c, uint32_t armed, Verdict& V, EvalCtx& X) {
 	// fill independence: behaviour never depends on the prior contents of the memory the machine is built in
 	if ((on(17) || on(9) || on(18)) && !X.uninit) {
 		const uint64_t d0 = digest(X.main, DG_ALL);
-		const int fills[2] = {uint8_t(~c.fill), c.fill == 0 ? 0xFF : 0x00};
-		for (int k = 0; k < 2; ++k) {
+		uint32_t hsh = 2166136261u;
+		for (const Op& op : c.ops) hsh = (hsh ^ (op.code * 31u + op.a * 7u + uint32_t(op.acts.size()))) * 16777619u;
+		const int fills[3] = {uint8_t(~c.fill), c.fill == 0 ? 0xFF : 0x00, 256 + int(hsh % 8u)};   // two byte fills and one word pattern (zoo.hpp)
+		for (int k = 0; k < 3; ++k) {
 			RunOpts r2; r2.fillOverride = fills[k];
 			fn(c, X.shadow, r2); ++X.runs;
 			if (X.shadow.overflow) continue;
